@@ -147,6 +147,50 @@ def resolve_strs(W, body, term, depth=0):
                 return None
             out += r
         return out
+    if h == "call" and term[1] == "alloc::fmt::format" and len(term[3]) == 1:
+        # format!("SELECT a, {COLS} FROM t") with constant string arguments only: the text is a compile-time constant.
+        # The template is rustc's byte encoding: n (< 128) = a literal piece of n bytes, 0xC0 = the next argument with
+        # default formatting, 0 = end.  Anything else (width / precision / positional arguments) is not decoded.
+        a = term[3][0]
+        if a[0] == "call" and a[1] == "core::fmt::Arguments::<'a>::new" and len(a[3]) == 2 and a[3][0][0] == "const" \
+                and isinstance(a[3][0][2], tuple) and a[3][0][2][:1] == ("bytes",):
+            tpl = list(a[3][0][2][1:])
+            arr = a[3][1]
+            while arr[0] == "mut":
+                arr = arr[3]
+            if arr[0] != "agg" or arr[1] != "array":
+                return None
+            args = []
+            for _, e in arr[2]:
+                if not (e[0] == "call" and e[1] == "core::fmt::rt::Argument::<'_>::new_display" and len(e[3]) == 1):
+                    return None
+                r = resolve_strs(W, body, e[3][0], depth + 1)
+                if r is None or len(set(r)) != 1:
+                    return None
+                args.append(r[0])
+            out, i, k = "", 0, 0
+            while i < len(tpl):
+                b_ = tpl[i]
+                if b_ == 0:
+                    return [out] if i == len(tpl) - 1 and k == len(args) else None
+                if b_ == 192:
+                    if k >= len(args):
+                        return None
+                    out += args[k]
+                    k += 1
+                    i += 1
+                elif b_ < 128:
+                    if i + 1 + b_ > len(tpl):
+                        return None
+                    try:
+                        out += bytes(tpl[i + 1:i + 1 + b_]).decode("utf-8")
+                    except UnicodeDecodeError:
+                        return None
+                    i += 1 + b_
+                else:
+                    return None
+            return None
+        return None
     if h == "ok" and term[1][0] == "call" and term[1][1] == "core::iter::traits::iterator::Iterator::next":
         it = term[1][3][0]
         # the iterator variable: follow its (single non-loop) definition
@@ -172,10 +216,33 @@ def resolve_strs(W, body, term, depth=0):
 
 
 def unwrap_param(t):
-    """Strip the unsize-cast / reference layers around one bound parameter."""
-    while t[0] in ("cast", "mut"):
-        t = t[1] if t[0] == "cast" else t[3]
-    return t
+    """Strip the unsize-cast / reference layers around one bound parameter; `Some(x)` binds x (rusqlite's ToSql for Option:
+    Some(x) is x, None is NULL)."""
+    while True:
+        if t[0] in ("cast", "mut"):
+            t = t[1] if t[0] == "cast" else t[3]
+        elif t[0] == "agg" and isinstance(t[1], tuple) and t[1][0] == "adt" and t[1][1] == "core::option::Option" and t[1][2] == "Some" and len(t[2]) == 1:
+            t = t[2][0][1]
+        else:
+            return t
+
+
+def _const_index(t, depth=0):
+    if depth > 8:
+        return None
+    if t[0] == "const" and isinstance(t[2], int) and not isinstance(t[2], bool):
+        return t[2]
+    if t[0] == "field" and t[2] == "0":
+        return _const_index(t[1], depth + 1)
+    if t[0] == "cast":
+        return _const_index(t[1], depth + 1)
+    if t[0] == "binop" and t[1].replace("WithOverflow", "").replace("Unchecked", "") in ("Add", "Sub", "Mul"):
+        a, b = _const_index(t[2], depth + 1), _const_index(t[3], depth + 1)
+        if a is None or b is None:
+            return None
+        op = t[1].replace("WithOverflow", "").replace("Unchecked", "")
+        return a + b if op == "Add" else a - b if op == "Sub" else a * b
+    return None
 
 
 def sites(W):
@@ -292,6 +359,8 @@ def row_reads(W, closure):
         if t["callee"].get("def") == "rusqlite::row::Row::<'stmt>::get":
             args = pv.arg_terms(bb)
             key = args[1][2] if args[1][0] == "const" else None
+            if key is None and P.const_only(args[1]):
+                key = _const_index(args[1])        # `r.get(first + 1)` with a constant `first` (a shared positional reader)
             targs = t["callee"].get("targs", [])
             ty = targs[-1] if targs else None
             out.append((key, ty, bb, pv.def_term((bb, "T"))))
